@@ -30,6 +30,7 @@ package ro
 //@   ensures [closed-drops|C01,C10,C09] atlock(status) != 0 ==> trace(call.NewNotificationNext(value), hook.OnDroppedNotification(ctx, _))
 //@   ensures [broadcast-under-lock|C02,C10,C13] heldat(mu, elem.NextWithContext)
 //@   ensures [state-unchanged|C10,C09] atunlock(status) == atlock(status) && atunlock(err).A == atlock(err).A && atunlock(err).B == atlock(err).B
+//@   ensures [a-closed-subject-keeps-its-stored-terminal|C10,C09,C01] atlock(status) != 0 ==> atunlock(status) == atlock(status) && atunlock(err).A == atlock(err).A && atunlock(err).B == atlock(err).B
 
 //@ func (*publishSubjectImpl).ErrorWithContext
 //@   props C01 C02 C10 C13 C09 C06
@@ -40,6 +41,7 @@ package ro
 //@   ensures [open-stores-broadcasts-clears|C01,C10,C09] atlock(status) == 0 ==> atunlock(status) == 1 && atunlock(err).A == ctx && atunlock(err).B == err && trace(observers.Range, elem.ErrorWithContext(ctx, err), observers.RangeEnd, observers.Range, observers.Delete(_), observers.RangeEnd)
 //@   ensures [closed-drops|C01,C10,C09] atlock(status) != 0 ==> trace(call.NewNotificationError(err), hook.OnDroppedNotification(ctx, _), observers.Range, observers.Delete(_), observers.RangeEnd)
 //@   ensures [broadcast-under-lock|C02,C10,C13] heldat(mu, elem.ErrorWithContext)
+//@   ensures [a-closed-subject-keeps-its-stored-terminal|C10,C09,C01] atlock(status) != 0 ==> atunlock(status) == atlock(status) && atunlock(err).A == atlock(err).A && atunlock(err).B == atlock(err).B
 
 //@ func (*publishSubjectImpl).CompleteWithContext
 //@   props C01 C02 C10 C13 C09 C06
@@ -50,6 +52,7 @@ package ro
 //@   ensures [open-stores-broadcasts-clears|C01,C10,C09] atlock(status) == 0 ==> atunlock(status) == 2 && trace(observers.Range, elem.CompleteWithContext(ctx), observers.RangeEnd, observers.Range, observers.Delete(_), observers.RangeEnd)
 //@   ensures [closed-drops|C01,C10,C09] atlock(status) != 0 ==> trace(call.NewNotificationComplete(), hook.OnDroppedNotification(ctx, _), observers.Range, observers.Delete(_), observers.RangeEnd)
 //@   ensures [broadcast-under-lock|C02,C10,C13] heldat(mu, elem.CompleteWithContext)
+//@   ensures [a-closed-subject-keeps-its-stored-terminal|C10,C09,C01] atlock(status) != 0 ==> atunlock(status) == atlock(status) && atunlock(err).A == atlock(err).A && atunlock(err).B == atlock(err).B
 
 //@ func (*publishSubjectImpl).SubscribeWithContext
 //@   props C01 C02 C03 C10 C11 C13 C14 C09 C06
@@ -105,6 +108,7 @@ package ro
 //@   ensures [closed-drops|C01,C10,C09] atlock(status) != 0 ==> trace(call.NewNotificationNext(value), hook.OnDroppedNotification(ctx, _))
 //@   ensures [broadcast-under-lock|C02,C10,C13] heldat(mu, elem.NextWithContext)
 //@   ensures [state-unchanged|C10,C09] atunlock(status) == atlock(status) && atunlock(err).A == atlock(err).A && atunlock(err).B == atlock(err).B
+//@   ensures [a-closed-subject-keeps-its-stored-terminal|C10,C09,C01] atlock(status) != 0 ==> atunlock(status) == atlock(status) && atunlock(err).A == atlock(err).A && atunlock(err).B == atlock(err).B && atunlock(last).A == atlock(last).A && atunlock(last).B == atlock(last).B
 
 //@ func (*behaviorSubjectImpl).ErrorWithContext
 //@   props C01 C02 C10 C13 C09 C06
@@ -115,6 +119,7 @@ package ro
 //@   ensures [open-stores-broadcasts-clears|C01,C10,C09] atlock(status) == 0 ==> atunlock(status) == 1 && atunlock(err).A == ctx && atunlock(err).B == err && trace(observers.Range, elem.ErrorWithContext(ctx, err), observers.RangeEnd, observers.Range, observers.Delete(_), observers.RangeEnd)
 //@   ensures [closed-drops|C01,C10,C09] atlock(status) != 0 ==> trace(call.NewNotificationError(err), hook.OnDroppedNotification(ctx, _), observers.Range, observers.Delete(_), observers.RangeEnd)
 //@   ensures [broadcast-under-lock|C02,C10,C13] heldat(mu, elem.ErrorWithContext)
+//@   ensures [a-closed-subject-keeps-its-stored-terminal|C10,C09,C01] atlock(status) != 0 ==> atunlock(status) == atlock(status) && atunlock(err).A == atlock(err).A && atunlock(err).B == atlock(err).B && atunlock(last).A == atlock(last).A && atunlock(last).B == atlock(last).B
 
 //@ func (*behaviorSubjectImpl).CompleteWithContext
 //@   props C01 C02 C10 C13 C09 C06
@@ -125,6 +130,7 @@ package ro
 //@   ensures [open-stores-broadcasts-clears|C01,C10,C09] atlock(status) == 0 ==> atunlock(status) == 2 && trace(observers.Range, elem.CompleteWithContext(ctx), observers.RangeEnd, observers.Range, observers.Delete(_), observers.RangeEnd)
 //@   ensures [closed-drops|C01,C10,C09] atlock(status) != 0 ==> trace(call.NewNotificationComplete(), hook.OnDroppedNotification(ctx, _), observers.Range, observers.Delete(_), observers.RangeEnd)
 //@   ensures [broadcast-under-lock|C02,C10,C13] heldat(mu, elem.CompleteWithContext)
+//@   ensures [a-closed-subject-keeps-its-stored-terminal|C10,C09,C01] atlock(status) != 0 ==> atunlock(status) == atlock(status) && atunlock(err).A == atlock(err).A && atunlock(err).B == atlock(err).B && atunlock(last).A == atlock(last).A && atunlock(last).B == atlock(last).B
 
 //@ func (*behaviorSubjectImpl).SubscribeWithContext
 //@   props C01 C02 C03 C10 C11 C13 C14 C09 C06
@@ -178,6 +184,7 @@ package ro
 //@   ensures [open-only-remembers|C01,C10,C09] atlock(status) == 0 ==> atunlock(hasValue) == true && atunlock(value).A == ctx && atunlock(value).B == value && trace()
 //@   ensures [closed-drops|C01,C10,C09] atlock(status) != 0 ==> trace(call.NewNotificationNext(value), hook.OnDroppedNotification(ctx, _))
 //@   ensures [status-unchanged|C10] atunlock(status) == atlock(status)
+//@   ensures [a-closed-subject-keeps-its-stored-terminal|C10,C09,C01] atlock(status) != 0 ==> atunlock(status) == atlock(status) && atunlock(err).A == atlock(err).A && atunlock(err).B == atlock(err).B && atunlock(hasValue) == atlock(hasValue) && atunlock(value).A == atlock(value).A && atunlock(value).B == atlock(value).B
 
 //@ func (*asyncSubjectImpl).ErrorWithContext
 //@   props C01 C02 C10 C13 C09 C06
@@ -188,6 +195,7 @@ package ro
 //@   ensures [open-stores-broadcasts-clears|C01,C10,C09] atlock(status) == 0 ==> atunlock(status) == 1 && atunlock(err).A == ctx && atunlock(err).B == err && trace(observers.Range, elem.ErrorWithContext(ctx, err), observers.RangeEnd, observers.Range, observers.Delete(_), observers.RangeEnd)
 //@   ensures [closed-drops|C01,C10,C09] atlock(status) != 0 ==> trace(call.NewNotificationError(err), hook.OnDroppedNotification(ctx, _), observers.Range, observers.Delete(_), observers.RangeEnd)
 //@   ensures [broadcast-under-lock|C02,C10,C13] heldat(mu, elem.ErrorWithContext)
+//@   ensures [a-closed-subject-keeps-its-stored-terminal|C10,C09,C01] atlock(status) != 0 ==> atunlock(status) == atlock(status) && atunlock(err).A == atlock(err).A && atunlock(err).B == atlock(err).B && atunlock(hasValue) == atlock(hasValue) && atunlock(value).A == atlock(value).A && atunlock(value).B == atlock(value).B
 
 //@ func (*asyncSubjectImpl).CompleteWithContext
 //@   props C01 C02 C10 C13 C09 C06
@@ -199,6 +207,7 @@ package ro
 //@   ensures [open-without-value-just-completes|C01,C10,C09] atlock(status) == 0 && !atlock(hasValue) ==> atunlock(status) == 2 && trace(observers.Range, elem.CompleteWithContext(ctx), observers.RangeEnd, observers.Range, observers.Delete(_), observers.RangeEnd)
 //@   ensures [closed-drops|C01,C10,C09] atlock(status) != 0 ==> trace(call.NewNotificationComplete(), hook.OnDroppedNotification(ctx, _), observers.Range, observers.Delete(_), observers.RangeEnd)
 //@   ensures [broadcast-under-lock|C02,C10,C13] heldat(mu, elem.CompleteWithContext)
+//@   ensures [a-closed-subject-keeps-its-stored-terminal|C10,C09,C01] atlock(status) != 0 ==> atunlock(status) == atlock(status) && atunlock(err).A == atlock(err).A && atunlock(err).B == atlock(err).B && atunlock(hasValue) == atlock(hasValue) && atunlock(value).A == atlock(value).A && atunlock(value).B == atlock(value).B
 
 //@ func (*asyncSubjectImpl).SubscribeWithContext
 //@   props C01 C02 C03 C10 C11 C13 C14 C09 C06
@@ -260,6 +269,7 @@ package ro
 //@   ensures [closed-drops|C01,C10,C09] atlock(status) != 0 ==> trace(call.NewNotificationNext(value), hook.OnDroppedNotification(ctx, _))
 //@   ensures [broadcast-under-lock|C02,C10,C13] heldat(mu, elem.NextWithContext)
 //@   ensures [status-unchanged|C10] atunlock(status) == atlock(status)
+//@   ensures [a-closed-subject-keeps-its-stored-terminal|C10,C09,C01] atlock(status) != 0 ==> atunlock(status) == atlock(status) && atunlock(err).A == atlock(err).A && atunlock(err).B == atlock(err).B && len(atunlock(values)) == len(atlock(values))
 
 //@ func (*replaySubjectImpl).ErrorWithContext
 //@   props C01 C02 C10 C13 C09 C06
@@ -270,6 +280,7 @@ package ro
 //@   ensures [open-stores-broadcasts-clears|C01,C10,C09] atlock(status) == 0 ==> atunlock(status) == 1 && atunlock(err).A == ctx && atunlock(err).B == err && trace(observers.Range, elem.ErrorWithContext(ctx, err), observers.RangeEnd, observers.Range, observers.Delete(_), observers.RangeEnd)
 //@   ensures [closed-drops|C01,C10,C09] atlock(status) != 0 ==> trace(call.NewNotificationError(err), hook.OnDroppedNotification(ctx, _), observers.Range, observers.Delete(_), observers.RangeEnd)
 //@   ensures [broadcast-under-lock|C02,C10,C13] heldat(mu, elem.ErrorWithContext)
+//@   ensures [a-closed-subject-keeps-its-stored-terminal|C10,C09,C01] atlock(status) != 0 ==> atunlock(status) == atlock(status) && atunlock(err).A == atlock(err).A && atunlock(err).B == atlock(err).B && len(atunlock(values)) == len(atlock(values))
 
 //@ func (*replaySubjectImpl).CompleteWithContext
 //@   props C01 C02 C10 C13 C09 C06
@@ -280,6 +291,7 @@ package ro
 //@   ensures [open-stores-broadcasts-clears|C01,C10,C09] atlock(status) == 0 ==> atunlock(status) == 2 && trace(observers.Range, elem.CompleteWithContext(ctx), observers.RangeEnd, observers.Range, observers.Delete(_), observers.RangeEnd)
 //@   ensures [closed-drops|C01,C10,C09] atlock(status) != 0 ==> trace(call.NewNotificationComplete(), hook.OnDroppedNotification(ctx, _), observers.Range, observers.Delete(_), observers.RangeEnd)
 //@   ensures [broadcast-under-lock|C02,C10,C13] heldat(mu, elem.CompleteWithContext)
+//@   ensures [a-closed-subject-keeps-its-stored-terminal|C10,C09,C01] atlock(status) != 0 ==> atunlock(status) == atlock(status) && atunlock(err).A == atlock(err).A && atunlock(err).B == atlock(err).B && len(atunlock(values)) == len(atlock(values))
 
 //@ func (*replaySubjectImpl).SubscribeWithContext
 //@   props C01 C02 C03 C10 C11 C13 C14 C09 C06
@@ -341,6 +353,7 @@ package ro
 //@   ensures [open-without-subscriber-keeps-last-n|C10,C09] atlock(status) == 0 && atlock(observer) == nil && s.bufferSize != -1 && s.bufferSize >= 1 && len(atlock(values)) + 1 > s.bufferSize ==> len(atunlock(values)) == s.bufferSize && atunlock(values)[s.bufferSize - 1].A == ctx && atunlock(values)[s.bufferSize - 1].B == value
 //@   ensures [closed-drops|C01,C10,C09] atlock(status) != 0 ==> trace(call.NewNotificationNext(value), hook.OnDroppedNotification(ctx, _))
 //@   ensures [status-unchanged|C10] atunlock(status) == atlock(status)
+//@   ensures [a-closed-subject-keeps-its-stored-terminal|C10,C09,C01] atlock(status) != 0 ==> atunlock(status) == atlock(status) && atunlock(err).A == atlock(err).A && atunlock(err).B == atlock(err).B && len(atunlock(values)) == len(atlock(values))
 
 //@ func (*unicastSubjectImpl).ErrorWithContext
 //@   props C01 C02 C10 C13 C06 C09
@@ -351,6 +364,7 @@ package ro
 //@   ensures [open-stores-error|C01,C10,C09] atlock(status) == 0 ==> atunlock(status) == 1 && atunlock(err).A == ctx && atunlock(err).B == err && atunlock(observer) == nil
 //@   ensures [open-with-subscriber-delivers|C01,C10,C09] atlock(status) == 0 && atlock(observer) != nil ==> trace(observer.ErrorWithContext(ctx, err))
 //@   ensures [closed-drops|C01,C10,C09] atlock(status) != 0 ==> trace(call.NewNotificationError(err), hook.OnDroppedNotification(ctx, _))
+//@   ensures [a-closed-subject-keeps-its-stored-terminal|C10,C09,C01] atlock(status) != 0 ==> atunlock(status) == atlock(status) && atunlock(err).A == atlock(err).A && atunlock(err).B == atlock(err).B && len(atunlock(values)) == len(atlock(values))
 
 //@ func (*unicastSubjectImpl).CompleteWithContext
 //@   props C01 C02 C10 C13 C06 C09
@@ -361,6 +375,7 @@ package ro
 //@   ensures [open-stores-completion|C01,C10] atlock(status) == 0 ==> atunlock(status) == 2 && atunlock(observer) == nil
 //@   ensures [open-with-subscriber-delivers|C01,C10,C09] atlock(status) == 0 && atlock(observer) != nil ==> trace(observer.CompleteWithContext(ctx))
 //@   ensures [closed-drops|C01,C10,C09] atlock(status) != 0 ==> trace(call.NewNotificationComplete(), hook.OnDroppedNotification(ctx, _))
+//@   ensures [a-closed-subject-keeps-its-stored-terminal|C10,C09,C01] atlock(status) != 0 ==> atunlock(status) == atlock(status) && atunlock(err).A == atlock(err).A && atunlock(err).B == atlock(err).B && len(atunlock(values)) == len(atlock(values))
 
 //@ func (*unicastSubjectImpl).SubscribeWithContext
 //@   props C01 C03 C10 C13 C02 C05 C20 C08 C09 C06
